@@ -258,6 +258,26 @@ def udp_burst(tier, r=None):
         if got != [(1, [ta]), (2, [tb])]:
             fails.append({"scenario": {"fe": "aio_udp", "framer": "socket", "burst": True, "tid_a": ta, "tid_b": tb},
                           "observed": L.observation(rec), "answers_by_peer": got})
+    # a LONG burst: twenty datagrams from alternating peers, and a pipelined stream arriving in thirty-six one-byte
+    # segments, all queued before the serving coroutine runs — nothing queued may be dropped
+    for n in range(2 if tier == "quick" else 10):
+        tids = [r.randrange(1, 65536) for _ in range(20)]
+        reads = [(L.adu("socket", t, 1, bytes([6]) + struct.pack(">HH", i, 0x100 + i)), 1 + i % 2, "burst") for i, t in enumerate(tids)]
+        reads[-1] = reads[-1][:2]
+        rec = L.run("aio_udp", "socket", {"single": True, "bcast": False, "ignore": False}, [(0, "ok")], reads)
+        got = [(dest, [x[0] for x in (L.split_adus("socket", data) or [])]) for data, dest in rec.raw]
+        keys.append(("aio_udp", "burst20", tuple(tids)))
+        if got != [(1 + i % 2, [t]) for i, t in enumerate(tids)]:
+            fails.append({"scenario": {"fe": "aio_udp", "framer": "socket", "burst": 20, "tids": tids},
+                          "observed": L.observation(rec), "answers_by_peer": got})
+        stream = b"".join(L.adu("socket", t, 1, bytes([6]) + struct.pack(">HH", i, 0x200 + i)) for i, t in enumerate(tids[:3]))
+        sreads = [(stream[i:i + 1], "burst") for i in range(len(stream) - 1)] + [stream[-1:]]
+        rec = L.run("aio_tcp", "socket", {"single": True, "bcast": False, "ignore": False}, [(0, "ok")], sreads)
+        out = b"".join(data for data, _ in rec.raw)
+        keys.append(("aio_tcp", "burst36", tuple(tids[:3])))
+        if [x[0] for x in (L.split_adus("socket", out) or [])] != tids[:3]:
+            fails.append({"scenario": {"fe": "aio_tcp", "framer": "socket", "burst": len(stream), "tids": tids[:3]},
+                          "observed": L.observation(rec)})
     return {"evaluations": len(keys), "failures": fails, "broken": [], "samples": fails[:1], "keys": keys}
 
 
@@ -362,6 +382,8 @@ def replay_case(suite, desc):
         ok, rec = e2e_one(sc)
         print(json.dumps(L.observation(rec))[:1500])
         return not ok
+    if suite == "udp-sender-isolation" and sc.get("burst") not in (None, True):
+        return bool(udp_burst("quick")["failures"])
     if suite == "udp-sender-isolation" and sc.get("burst"):
         a = L.adu("socket", sc["tid_a"], 1, bytes([3]) + struct.pack(">HH", 1, 1))
         b = L.adu("socket", sc["tid_b"], 1, bytes([3]) + struct.pack(">HH", 5, 2))
